@@ -16,3 +16,53 @@ package tendermint
 //@   ensures block_delay: err == nil && delayBlockPeriod != 0 ==> phRaw != "" && hcmp(selfN, selfH, ph.RevisionNumber, ph.RevisionHeight + delayBlockPeriod) >= 0
 //@   ensures zero_delay_ok: delayTimePeriod == 0 && delayBlockPeriod == 0 ==> err == nil
 //@   ensures pure: world(ctx) == old(world(ctx))
+
+// ---- status (C21)
+//@ import host modules/core/24-host
+
+//@ contract GetConsensusState
+//@   pure
+//@   ensures found_iff_stored: result1 == (vget(store, host.ConsensusStateKey(height)) != "")
+//@   ensures absent_nil: !result1 ==> result0 == nil
+
+//@ contract getClientState
+//@   pure
+//@   ensures found_iff_stored: result1 == (vget(store, host.ClientStateKey()) != "")
+//@   ensures absent_nil: !result1 ==> result0 == nil
+
+//@ contract (ClientState).IsExpired
+//@   pure
+//@   ensures result == (latestTimestamp + cs.TrustingPeriod <= now)
+
+//@ contract (ClientState).status
+//@   pure
+//@   let cons = nth(GetConsensusState(clientStore, cdc, cs.LatestHeight), 0)
+//@   let found = nth(GetConsensusState(clientStore, cdc, cs.LatestHeight), 1)
+//@   let notFrozen = cs.FrozenHeight.RevisionNumber == 0 && cs.FrozenHeight.RevisionHeight == 0
+//@   ensures frozen: !notFrozen ==> result == exported.Frozen
+//@   ensures expired_no_consensus_state: notFrozen && !found ==> result == exported.Expired
+//@   ensures expired_past_trusting_period: notFrozen && found && cons.Timestamp + cs.TrustingPeriod <= blocktime(ctx) ==> result == exported.Expired
+//@   ensures active: notFrozen && found && cons.Timestamp + cs.TrustingPeriod > blocktime(ctx) ==> result == exported.Active
+//@   ensures pure: world(ctx) == old(world(ctx))
+
+//@ contract (LightClientModule).Status
+//@   let view = l.storeProvider.ClientStore(ctx, clientID)
+//@   let cs = nth(getClientState(view, l.cdc), 0)
+//@   let found = nth(getClientState(view, l.cdc), 1)
+//@   ensures unknown_if_absent: !found ==> result == exported.Unknown
+//@   ensures status_of_stored: found ==> result == deref(cs).status(ctx, view, l.cdc)
+//@   ensures pure: world(ctx) == old(world(ctx))
+
+// ---- update (C20/C21): the latest height never decreases; an existing consensus state is never overwritten
+
+//@ contract (*ClientState).pruneOldestConsensusState
+//@   trusted closure-based iteration over the client store (iterators are outside the engine's subset): assumed to leave the client state object unchanged and to write only through the given client store
+//@   modifies world(clientStore)
+//@   ensures cs_unchanged: deref(cs) == old(deref(cs))
+
+//@ contract (*ClientState).UpdateState
+//@   let hdr = dyn(clientMsg, *Header)
+//@   let L0 = deref(cs).LatestHeight
+//@   modifies world(clientStore), *cs
+//@   ensures latest_height_never_decreases: hcmp(deref(cs).LatestHeight.RevisionNumber, deref(cs).LatestHeight.RevisionHeight, L0.RevisionNumber, L0.RevisionHeight) >= 0
+//@   ensures not_a_header_no_change: !isType(clientMsg, *Header) ==> world(clientStore) == old(world(clientStore)) && deref(cs) == old(deref(cs))
